@@ -129,6 +129,11 @@ class CallMixin:
             if info is not None:
                 result = ClassV(name)
                 result.module = info.module
+        if result is None and module.startswith("sidecar:") and getattr(self, "spec_fallback_module", None):
+            # a specification may name the module-level tables of the file under verification (read from the real source)
+            target = self.world.load(self.spec_fallback_module)
+            if name in target.consts:
+                return self.lookup_global(name, self.spec_fallback_module)
         if result is None:
             if module.startswith("sidecar:"):
                 # dsl type descriptors etc. referenced from specs are not values of the verified world
